@@ -1824,9 +1824,11 @@ def build(template_text: str, repo: str, unit: str) -> Built:
                         if g2 is not None:
                             emit(f"// ---- auto-extracted (R15c) {g2[0]} :: const {dep} ----")
                             emit(g2[1]); auto_consts.add(dep)
+                            report.append(dict(item=f"const {dep}", src="auto", sha256=hashlib.sha256((g2[1]).encode()).hexdigest(), rewrites=["R15: extracted automatically"]))
                             rep.append(("R15", f"const {dep} of {g2[0]} extracted automatically (named by const {cname})"))
                     emit(f"// ---- auto-extracted (R15c) {crel} :: const {cname} ----")
                     emit(ctext); auto_consts.add(cname)
+                    report.append(dict(item=f"const {cname}", src="auto", sha256=hashlib.sha256((ctext).encode()).hexdigest(), rewrites=["R15: extracted automatically"]))
                     rep.append(("R15", f"const {cname} of {crel} extracted automatically (function-local or other file)"))
                     continue
                 ctoks = rw_vis(rw_strip_comments(list(sf.toks[citem.start:citem.end]), rep), rep)
@@ -1849,6 +1851,7 @@ def build(template_text: str, repo: str, unit: str) -> Built:
                     rep.append(("R15", f"const {cname}: initializer is a call, value left opaque (external_body)"))
                 emit(ctxt)
                 auto_consts.add(cname)
+                report.append(dict(item=f"const {cname}", src="auto", sha256=hashlib.sha256((ctxt).encode()).hexdigest(), rewrites=["R15: extracted automatically"]))
                 rep.append(("R15", f"const {cname} of {rel} extracted automatically"))
             # R15b: likewise a type alias of the same source file (`type Aes128Ctr = ctr::Ctr128BE<aes::Aes128>;`)
             for tname in sorted(set(re.findall(r"\b[A-Z][a-z0-9]+[A-Za-z0-9]*\b", text))):
@@ -1864,6 +1867,7 @@ def build(template_text: str, repo: str, unit: str) -> Built:
                 emit(f"// ---- auto-extracted (R15b) {rel}:{sf.line_of(titem.start)} :: type {tname} ----")
                 emit(ttxt)
                 auto_consts.add(tname)
+                report.append(dict(item=f"type {tname}", src="auto", sha256=hashlib.sha256((ttxt).encode()).hexdigest(), rewrites=["R15: extracted automatically"]))
                 rep.append(("R15", f"type alias {tname} of {rel} extracted automatically"))
             first = len(out_lines) + 1
             # emit line by line, picking up label markers
